@@ -94,6 +94,10 @@ type Opts struct {
 	// random nonce, which the demultiplexer cannot classify) and not with Limited.
 	SharedTCP bool
 
+	// WrapConn, if set, wraps every connection the TCP transport hands to the swarm (dialled and accepted): the seam for
+	// faults at the transport.CapableConn level, e.g. a Close that does its work and then reports an error.
+	WrapConn func(transport.CapableConn) transport.CapableConn
+
 	WithHost bool // build a basic host on top of the swarm
 	HostOpts *basichost.HostOpts
 }
@@ -124,7 +128,22 @@ type Transport struct {
 	dialer  *simnet.Dialer
 	limited func(remote net.Addr) bool
 	shared  bool
+	wrap    func(transport.CapableConn) transport.CapableConn
 }
+
+func (t *Transport) wrapped(c transport.CapableConn, err error) (transport.CapableConn, error) {
+	if err != nil || t.wrap == nil {
+		return c, err
+	}
+	return t.wrap(c), nil
+}
+
+type wrapListener struct {
+	transport.Listener
+	t *Transport
+}
+
+func (l wrapListener) Accept() (transport.CapableConn, error) { return l.t.wrapped(l.Listener.Accept()) }
 
 // limitedConn is a raw connection that reports itself as limited.
 type limitedConn struct{ manet.Conn }
@@ -159,7 +178,7 @@ func (t *Transport) Dial(ctx context.Context, raddr ma.Multiaddr, p peer.ID) (tr
 func (t *Transport) DialWithUpdates(ctx context.Context, raddr ma.Multiaddr, p peer.ID, updates chan<- transport.DialUpdate) (transport.CapableConn, error) {
 	na, err := manet.ToNetAddr(raddr)
 	if t.limited == nil || err != nil || !t.limited(na) {
-		return t.TcpTransport.DialWithUpdates(ctx, raddr, p, updates)
+		return t.wrapped(t.TcpTransport.DialWithUpdates(ctx, raddr, p, updates))
 	}
 	scope, err := t.rcmgr.OpenConnection(network.DirOutbound, true, raddr)
 	if err != nil {
@@ -180,10 +199,18 @@ func (t *Transport) DialWithUpdates(ctx context.Context, raddr ma.Multiaddr, p p
 		scope.Done()
 		return nil, err
 	}
-	return t.up.Upgrade(ctx, t, limitedConn{mc}, network.DirOutbound, p, scope)
+	return t.wrapped(t.up.Upgrade(ctx, t, limitedConn{mc}, network.DirOutbound, p, scope))
 }
 
 func (t *Transport) Listen(laddr ma.Multiaddr) (transport.Listener, error) {
+	l, err := t.listen(laddr)
+	if err != nil || t.wrap == nil {
+		return l, err
+	}
+	return wrapListener{l, t}, nil
+}
+
+func (t *Transport) listen(laddr ma.Multiaddr) (transport.Listener, error) {
 	if t.shared {
 		return t.TcpTransport.Listen(laddr) // the real one; its socket comes from simnet through simhook
 	}
@@ -302,7 +329,7 @@ func New(n *simnet.Net, o Opts) (*Node, error) {
 		nd.closePS()
 		return nil, err
 	}
-	nd.Tpt = &Transport{TcpTransport: tt, net: n, up: up, rcmgr: nd.Rcmgr, dialer: d, limited: o.Limited, shared: o.SharedTCP}
+	nd.Tpt = &Transport{TcpTransport: tt, net: n, up: up, rcmgr: nd.Rcmgr, dialer: d, limited: o.Limited, shared: o.SharedTCP, wrap: o.WrapConn}
 	if err := sw.AddTransport(nd.Tpt); err != nil {
 		sw.Close()
 		nd.closePS()
